@@ -1,6 +1,6 @@
 """C05 -- encrypt then decrypt restores every string and stream (standard security handler)."""
 import re
-import propcheck, vlib
+import propcheck, vlib, pwaid
 from sxg import *
 
 PERM_BITS = [2, 3, 4, 5, 8, 9, 10, 11]
@@ -184,40 +184,6 @@ def gen_perms(rng):
     return sum(1 << b for b in PERM_BITS if rng.random() < 0.5)
 
 
-def gen_pw_pair(rng, limit):
-    """(owner, user, wrongs) -- printable ASCII (both password preparations are the identity there)"""
-    def pw():
-        k = rng.random()
-        if k < 0.2:
-            return b''
-        if k < 0.65:
-            return rascii(rng, rng.randint(1, 12))
-        if k < 0.85:
-            return rascii(rng, rng.randint(33, 50))
-        return rascii(rng, rng.randint(128, 140))
-    user = pw()
-    k = rng.random()
-    if k < 0.15:
-        owner = user
-    elif k < 0.25 and len(user) >= limit:
-        # same after truncation, different beyond
-        owner = user[:limit] + rascii(rng, 3)
-    else:
-        owner = pw()
-    wrongs = []
-    for _ in range(2):
-        w = pw()
-        if w[:limit] in (user[:limit], owner[:limit]):
-            w = bytes([(w[0] if w else 0x41) ^ 1]) + w[1:] if w else b'x'
-        if w[:limit] not in (user[:limit], owner[:limit]):
-            wrongs.append(w)
-    if len(user) > 0 and rng.random() < 0.5:
-        w = user[:-1] + bytes([user[-1] ^ 3]) if len(user) <= limit else bytes([user[0] ^ 3]) + user[1:]
-        if w[:limit] not in (user[:limit], owner[:limit]) and all(0x20 < c < 0x7f for c in w):
-            wrongs.append(w)
-    return owner, user, wrongs
-
-
 def CFS(pairs):
     return L('cfs', *[L(xb(n), f) for n, f in pairs])
 
@@ -306,7 +272,7 @@ def gen_cases(rng, tier):
     runner, _ = vlib.build_runner(SPEC['runner'])
     specs = []
     for kind0, n in plan(tier):
-        for _ in range(n):
+        for j in range(n):
             # objstm: documents holding streams of Type ObjStm (decrypt_raw's last pass expands them), under any of the
             # cheap versions; objstm-flate: the object stream is compressed -- ObjectStream::new decompresses it in place,
             # which the model has no filter for: both sides answer "unmodelled", and byte-for-byte restoration of that
@@ -314,18 +280,40 @@ def gen_cases(rng, tier):
             objstm = {'objstm': 'plain', 'objstm-flate': 'flate'}.get(kind0)
             kind = rng.choice(['v1', 'v2', 'v4', 'v4', 'r5']) if objstm else kind0
             mk, limit, cf_names, alldiff = gen_version(rng, kind)
-            owner, user, wrongs = gen_pw_pair(rng, limit)
+            # password TEXTS (pwaid.py); revision 5 (cheap hash): the first two documents have a user / an owner password of
+            # more than 127 bytes in multi-byte characters; the quick tier's revision 6 documents: at most 50 bytes
+            # (unsupported parameter combinations, whose enc line may go to both sides as it is: printable ASCII)
+            force = ['user-straddle', 'owner-straddle'][j] if kind0 == 'r5' and j < 2 else \
+                ('ascii' if kind in ('v2bad', 'v4odd', 'v5odd') else None)
+            pwset = pwaid.gen_pw_set(rng, limit, kind in ('r5', 'v5', 'v5odd'), force,
+                                     maxlen=(50 if kind.startswith('v5') and tier == 'quick' else None))
             doc, feats = gen_doc(rng, cf_names, objstm=objstm)
-            ver = mk(owner, user)
             rnd = [rbytes(rng, 16), rbytes(rng, 16), rbytes(rng, 4)]
             ivs = [rbytes(rng, 16) for _ in range(80)]
-            enc_line = L('enc', doc, ver, L('rnd', *[xb(b) for b in rnd]), L('ivs', *[xb(b) for b in ivs]))
-            specs.append({'kind': kind, 'doc': doc, 'ver': ver, 'enc': enc_line, 'owner': owner, 'user': user,
-                          'wrongs': wrongs, 'feats': feats, 'alldiff': alldiff,
+            specs.append({'kind': kind, 'doc': doc, 'mk': mk, 'pwset': pwset, 'rnd': rnd, 'ivs': ivs, 'feats': feats, 'alldiff': alldiff,
                           'by_model': rng.random() < 0.3 and not (tier == 'quick' and kind.startswith('v5'))})
-    impl_enc = [vlib.split_impl(l)[0] for l in vlib.run_lines(impl, [s['enc'] for s in specs], timeout=900, shards=8)] if impl else []
+    # password preparation: the crate's own, through the harness (an oracle; see pwaid.py).  The model side gets the
+    # PREPARED bytes (<ver>, pws), lopdf the texts ((raw ..) / the enc line of the harness)
+    P = pwaid.prepare_texts(impl, [(s['pwset']['r56'], t) for s in specs for t in [s['pwset']['user'], s['pwset']['owner']] + s['pwset']['cands']])
+    for s in specs:
+        f = pwaid.finalize(s['pwset'], P, max_right_extra=1, max_wrong=3)
+        s['pw'] = f
+        s['ver'] = s['mk'](f['owner'][1], f['user'][1])
+        tail = [L('rnd', *[xb(b) for b in s['rnd']]), L('ivs', *[xb(b) for b in s['ivs']])]
+        s['enc'] = L('enc', s['doc'], s['ver'], *tail)
+        s['enc_text'] = L('enc', s['doc'], s['mk'](f['owner'][0], f['user'][0]), *tail)
+        # (prepared, text): user, owner, then the other candidates (equal to one of them after truncation, or wrong)
+        s['pws'] = [(f['user'][1], f['user'][0]), (f['owner'][1], f['owner'][0])] + \
+                   [(p, t) for _, p, t in f['pws'] if p not in (f['user'][1], f['owner'][1])]
+    impl_enc = [vlib.split_impl(l)[0] for l in vlib.run_lines(impl, [s['enc_text'] for s in specs], timeout=900, shards=8)] if impl else []
     by_model = [i for i, s in enumerate(specs) if s['by_model']]
     model_enc = dict(zip(by_model, vlib.run_lines(runner, [specs[i]['enc'] for i in by_model], timeout=900, shards=16))) if runner else {}
+
+    def case_line(s, encdoc, pws, flags):
+        raw = [L('raw', xb(s['pw']['owner'][0]), xb(s['pw']['user'][0]), L(*[xb(t) for _, t in pws]))] \
+            if s['pw']['owner'][0] != s['pw']['owner'][1] or s['pw']['user'][0] != s['pw']['user'][1] or any(p != t for p, t in pws) else []
+        return L('case', s['doc'], s['ver'], encdoc, L('pws', *[xb(p) for p, _ in pws]), L('flags', *flags), *raw)
+
     cases = []
     for i, s in enumerate(specs):
         ie = impl_enc[i] if i < len(impl_enc) else ''
@@ -338,7 +326,7 @@ def gen_cases(rng, tier):
         if s['by_model'] and model_enc.get(i, '').startswith('(encdoc '):
             encdoc = model_enc[i][len('(encdoc '):-1]
             src = 'model'
-        pws = [s['user'], s['owner']] + s['wrongs']
+        pws = s['pws']
         supported = s['kind'] in ('v1', 'v2', 'v4', 'r5', 'v5')
         flags = ['noverdict']
         if supported:
@@ -352,7 +340,7 @@ def gen_cases(rng, tier):
         else:
             parts = [(pws, flags)]
         for ps, fl in parts:
-            cases.append((L('case', s['doc'], s['ver'], encdoc, L('pws', *[xb(p) for p in ps]), L('flags', *fl)),
+            cases.append((case_line(s, encdoc, ps, fl),
                           {'kind': '%s%s-%s' % (s['kind'], ''.join('+' + x for x in sorted(s['feats']) if x.startswith('objstm')), src),
                            'nontrivial': True}))
         if s['kind'] in ('r5', 'v5') and rng.random() < (0.5 if s['kind'] == 'r5' else 1.0):
@@ -361,14 +349,12 @@ def gen_cases(rng, tier):
             k = encdoc.find('(%s %s)' % (xb('Filter'), N('Standard')))
             if k >= 0:
                 with256 = encdoc[:k] + '(%s %s) ' % (xb('Length'), I(256)) + encdoc[k:]
-                cases.append((L('case', s['doc'], s['ver'], with256, L('pws', *[xb(p) for p in pws[:(1 if s['kind'] == 'v5' else 3)]]),
-                                L('flags', 'noverdict', 'noreenc')),
+                cases.append((case_line(s, with256, pws[:(1 if s['kind'] == 'v5' else 3)], ['noverdict', 'noreenc']),
                               {'kind': 'length256-' + s['kind'], 'nontrivial': True}))
         if rng.random() < 0.35:
             dmg, what = damage_encdoc(rng, encdoc)
             if dmg:
-                cases.append((L('case', s['doc'], s['ver'], dmg, L('pws', *[xb(p) for p in pws[:(1 if s['kind'].startswith('v5') else 3)]]),
-                                L('flags', 'noverdict', 'noreenc')),
+                cases.append((case_line(s, dmg, pws[:(1 if s['kind'].startswith('v5') else 3)], ['noverdict', 'noreenc']),
                               {'kind': 'damaged-' + what.split('-')[0], 'nontrivial': True}))
     return cases
 
@@ -389,12 +375,16 @@ SPEC = {
             'members are partly absent from the object map (they appear on decrypt), partly present, one sometimes numbered like '
             'the encryption dictionary; sparse ids, non-zero generations) x '
             '{V1; V2 40..128 and unsupported lengths; V4 with RC4/AESV2/Identity(/AESV3) per filter name, StmF/StrF chosen independently, '
-            'unknown names; R5; V5} x EncryptMetadata x permission subsets x password pairs (empty, short, >32, >127, owner = user, '
-            'equal after truncation) + 2-3 wrong passwords; each document is encrypted by lopdf (70%) or by the model with explicit '
+            'unknown names; R5; V5} x EncryptMetadata x permission subsets x password pairs (Unicode texts -- ASCII, PDFDocEncoding '
+            'letters and specials for R2-4; Cyrillic, kana, CJK extension B, texts SASLprep changes for R5/6 -- empty, short, >32, '
+            '>127 bytes incl. multi-byte characters across the 127-byte cut, owner = user, equal after truncation; lopdf gets the '
+            'text, the model the bytes the crate\'s preparation makes of it) + passwords differing beyond the cut only + 2-3 '
+            'wrong passwords; each document is encrypted by lopdf (70%) or by the model with explicit '
             'randomness (30%) and decrypted by both; the model re-encrypts with the random choices read back from the ciphertext and '
             'must reproduce it byte for byte; 35% get a damaged encryption dictionary; non-trivial = every case',
     'extra_trusted': ['C05: Gallina MD5 / SHA-256/384/512 / AES-128/256 (RFC 1321, FIPS 180-4, FIPS 197 vectors as Examples) stand in for the md-5, sha2, aes crates',
-                      'C05: password preparation (PDFDocEncoding / SASLprep) is outside the model; correspondence uses printable-ASCII passwords'],
+                      'C05: password preparation (PDFDocEncoding / SASLprep) is outside the model: the harness prepares the Unicode texts with '
+                      'the crate\'s own preparation and the model gets the prepared bytes'],
     'impl_timeout': 1200,
     'model_timeout': 1500,
 }
